@@ -173,8 +173,10 @@ PROPS = {
                   "C13_fixed_file_iff_direct", "C13_alloc_and_cloexec_follow_requested_kind",
                   "C13_result_done_iff_success", "C13_result_errno_is_the_calls",
                   "C13_result_errno_reported_except_einval", "C13_result_einval_is_masked",
-                  "C13_from_raw_roundtrip", "C13_fallback_same_descriptor_regular", "C13_fallback_h21_refuted",
-                  "C13_fallback_h21_every_direct_socket_fallback", "C13_fallback_same_descriptor_fails",
+                  "C13_from_raw_roundtrip", "C13_fallback_same_descriptor", "C13_fallback_same_descriptor_regular",
+                  "C13_fallback_direct_never_calls", "C13_fallback_direct_keeps_error",
+                  "C13_fallback_repair_regular_unchanged", "C13_fallback_h21_refuted",
+                  "C13_fallback_h21_every_direct_socket_fallback",
                   "C13_file_type_is_posix_macro", "C13_file_type_exclusive", "C13_permission_flags_are_mode_bits",
                   "C13_timestamp_matches_posix_except_h9", "C13_timestamp_h9_panics", "C13_timestamp_h9_refuted",
                   "C13_timestamp_matches_posix_fails", "C13_timestamp_fixed_matches_posix",
@@ -217,8 +219,8 @@ PROPS = {
                      "exit codes 0..255, signals 1..64; boolean socket options are reported as non-negative ints",
                      "std's SystemTime/Duration arithmetic and ExitStatus accessors are modelled from their source (checked_add/sub on "
                      "(i64 s, ns) pairs; the glibc W* macros)",
-                     "models are of the code as it is in /repo: timestamp and WaitInfo::status before proposed_fix_h9.diff / "
-                     "proposed_fix_h22.diff (run_c13case_fixed is the driver for the repaired code)"],
+                     "models are of the code as it is in /repo after the repairs of H9 (timestamp), H21 (socket fallbacks only for "
+                     "regular descriptors) and H22 (WaitInfo::status); the pre-repair functions are kept for the refutation lemmas"],
         trusted=["simulated kernel harness/src/simk.rs (consumes SQEs, completes with scripted results)",
                  "the ABI table abi_decode / abi_call (hand-written from the uapi; corroborated by the thorough-tier run on the real kernel)",
                  "std::time::SystemTime, std::process::ExitStatus as reference in the harness oracle"],
